@@ -391,6 +391,35 @@ def clause_d(rep, F):
             bad.append("state not Inside: enqueues %s" % [str(o[1]) for o in ends])
     rep.check(n >= 2 and not bad, "implicit-mapping-pairing", "end_implicit_mapping", "the implicit flow mapping is closed inconsistently: " + "; ".join(sorted(set(bad))[:3]),
               site=g.span)
+    # the implicit-mapping states have one entry per open flow *sequence*: their top entry describes the current collection only while no flow
+    # mapping is open inside that sequence, so the implicit mapping may be ended only where the innermost open collection is a sequence:
+    # at the sequence's own `]` (fetch_flow_collection_end under tok == FlowSequenceEnd) or at a `,` that is not directly inside a `{`
+    for k, h in sorted(F.fns.items()):
+        if h.crate != "saphyr_parser" or h.d.get("impl_adt") != SCANNER:
+            continue
+        for bb, t, ck, fr in h.calls():
+            if ck != S + "end_implicit_mapping":
+                continue
+            guarded = False
+            for d in h.dominators().get(bb, ()):
+                td = h.blocks[d]["term"]
+                if td["k"] != "switch":
+                    continue
+                e = cfg.expr_operand(h, td["discr"], 12)
+                txt = cfg.expr_str(e)
+                # a test on the kind of the closing token (`matches!(tok, FlowSequenceEnd)`) or on the innermost entry of the per-collection
+                # stack (is it a mapping?)
+                if ("flow_mapping_levels" in txt and ("last" in txt or "is_some_and" in txt)) or ("discr(" in txt and "arg2" in txt):
+                    guarded = True
+                l = is_local(td["discr"])
+                if l is not None and not guarded:
+                    for dd in cfg.defs_of_local(h, cfg.resolve_copy_chain(h, l)):
+                        if dd[0] == "call" and "flow_mapping_levels" in " ".join(cfg.expr_str(cfg.expr_operand(h, a, 10)) for a in dd[2]["args"]):
+                            guarded = True
+            rep.check(guarded, "implicit-mapping-pairing", "%s->end_implicit_mapping" % short(k).split("::")[-1],
+                      "the implicit single-pair mapping of a flow sequence entry is ended without establishing that the innermost open flow collection "
+                      "is that sequence: a `,` between the entries of a flow mapping nested in the pair's value closes the pair early "
+                      "(`[ a: { b: c, d: e } ]` loses `d: e` from the inner mapping)", site=site(h, t["sp"]))
     # Inside is written only by fetch_value
     writers = set()
     for k, h in sorted(F.fns.items()):
@@ -496,9 +525,51 @@ def clause_f(rep, F):
     rep.check(okf, "key-insertion-index", "insert_token", "insert_token no longer inserts its token argument at its position argument", site=f.span)
 
 
+def clause_g(rep, F):
+    """(f) omitted-node-keeps-token: a parser handler that reports an omitted node ("Nodes that the syntax leaves out appear as null
+    scalars": Event::empty_scalar) decides so by looking at the next token; that token belongs to what follows (the ':' of the pair, the ','
+    or ']' of the collection) and must still be pending when the handler returns.  Consuming it desynchronises the parser from the
+    scanner: `[ ? : x ]` and `[ ? ]` are rejected.  Decided on every outcome of every state-machine handler (E5)."""
+    from engine import e5
+    from . import C02
+    E = e5.E5(F) if hasattr(e5, "E5") else None
+    if E is None:
+        raise facts.MissingAnchor("engine E5 not available")
+    table, _sm = C02.dispatch_table(F)
+    n = 0
+    seen = set()
+    for st, d in sorted(table.items(), key=str):
+        if d is None or d[0] == "unreachable" or d[0] not in F.fns:
+            continue
+        for key, args in [(d[0], tuple(d[1]))]:
+            if (key, args) in seen:
+                continue
+            seen.add((key, args))
+            bad = []
+            for o in E.outcomes(key, args):
+                if o.get("kind") != "return":
+                    continue
+                r = o["result"]
+                if r is e5.TOP or r[0] != "ok":
+                    continue
+                x = r[1]
+                if x is e5.TOP or x[0] != "tuple" or x[1] is e5.TOP or x[1][0] != "event":
+                    continue
+                ev = x[1]
+                if ev[1] == "Scalar" and ev[2] == ("empty",):
+                    n += 1
+                    if not o.get("slot"):
+                        bad.append(o.get("trace", [])[-6:])
+            rep.check(not bad, "omitted-node-keeps-token", "%s%s" % (short(key).split("::")[-1], list(args) if args else ""),
+                      "the handler reports an omitted node (empty scalar) after consuming the token that showed the node was omitted: that token is "
+                      "the ':' / ',' / closing bracket of the enclosing construct and the parser loses it", site=F.fns[key].span, detail={"paths": bad[:3]})
+    rep.floor("handler outcomes that report an omitted node", n, 10)
+
+
 def run(tier):
     rep = new_report(tier)
     F = facts.load()
+    clause_g(rep, F)
     clause_a(rep, F)
     clause_b(rep, F)
     clause_c(rep, F)
